@@ -54,6 +54,9 @@ const (
 	SIDE_CHAIN                = "sideChain"
 	REDEEM_BIND               = "redeemBind"
 	BIND_SIGN_INFO            = "bindSignInfo"
+	// signatures collected by SetBtcTxParam; kept apart from BIND_SIGN_INFO (used by RegisterRedeem)
+	// because the two message layouts overlap, and no other key prefix starts with or is a prefix of it
+	TX_PARAM_SIGN_INFO        = "txParamSignInfo"
 	BTC_TX_PARAM              = "btcTxParam"
 	REDEEM_SCRIPT             = "redeemScript"
 	ASSET_BIND                = "assetBind"
@@ -414,7 +417,7 @@ func SetBtcTxParam(native *native.NativeService) ([]byte, error) {
 	sink := common.NewZeroCopySink(nil)
 	params.Detial.Serialization(sink)
 	key := append(append(rk, utils.GetUint64Bytes(params.RedeemChainId)...), sink.Bytes()...)
-	info, err := getBindSignInfo(native, key)
+	info, err := getSignInfo(native, TX_PARAM_SIGN_INFO, key)
 	if err != nil {
 		return utils.BYTE_FALSE, fmt.Errorf("SetBtcTxParam, getBindSignInfo error: %v", err)
 	}
@@ -428,7 +431,7 @@ func SetBtcTxParam(native *native.NativeService) ([]byte, error) {
 	for k, v := range verified {
 		info.BindSignInfo[k] = v
 	}
-	if err = putBindSignInfo(native, key, info); err != nil {
+	if err = putSignInfo(native, TX_PARAM_SIGN_INFO, key, info); err != nil {
 		return utils.BYTE_FALSE, fmt.Errorf("SetBtcTxParam, failed to put bindSignInfo: %v", err)
 	}
 	if len(info.BindSignInfo) >= m {
